@@ -71,4 +71,12 @@ CHECKS = {
         text='Bounded model checking of registration on the real code: 13 callable/class shapes x 3 registration APIs x scoped or not; register returns the very object and vars(cls) is untouched, direct calls are never injected while the registry version (by object, by selector, returned wrapper, evaluated reference) receives the bound value for ALL integers, name/doc/module/signature preserved, issubclass/isinstance/exact type/pickle round trip; 7 kinds of rejected registration leave the registry listing unchanged; interactive mode ends with its block even when the body raised.',
         note=X_NOTE + ' Class creation, pickle and inspect are CPython C code executed natively.',
         technique='CrossHair/z3 symbolic execution of _make_configurable/_decorate_fn_or_cls/gin_wrapper over shape x API choices with a symbolic bound value'),
+    'C06': dict(
+        text='(i) decides data: for 7 catalogue values the pprint width is an UNBOUNDED symbolic integer through the real pprint code and every layout is proved to parse back to the same value and type; (ii) bounded exhaustive with solver completeness certificate: every subset of 3-4 items of a 25-item binding catalogue in 3 binding orders, and every (continuation_indent, max_line_length) of a 4 x 52 grid, through the real config_str/parse_config: text parses into a cleared config, representable bindings and imports restored with equal value and type, second serialisation identical, text independent of binding order, sections alphabetical with sorted parameters, unrepresentable values omitted, markdown keeps binding lines.',
+        note=X_NOTE + ' One listed known finding (comment-only "# None." section is not reproduced). The combination of the width lemma with the two line wrappers is an argument, not a single solver verdict.',
+        technique='CrossHair/z3 symbolic execution of pprint.pformat with a symbolic width + exhaustive path exploration over catalogue subsets/orders/widths through _config_str and the parser'),
+    'C07': dict(
+        text='Bounded exhaustive checking with a solver completeness certificate: 1-2 calls over 5 probes x scopes x caller argument modes x 9 bound value kinds x binding placement; operative_config_str() is parsed back and must contain exactly the called (scope, configurable) sections, exactly the Gin-supplied representable configurable parameters with the most recent value, macro definitions for used macros and no constant lookups; clearing, parsing the text and repeating the calls must give every probe the same arguments and reproduce the text.',
+        note=X_NOTE + ' The record is observed through a stringifier, so all inputs are finite choices; leaves run natively.',
+        technique='CrossHair/z3 exhaustive path exploration over call/binding scenarios through gin_wrapper operative bookkeeping and operative_config_str; reference = operative-record model + replay'),
 }
